@@ -24,7 +24,7 @@ OPS = ['encode-valid', 'encode-corrupt', 'decode-arbitrary', 'decode-truncated']
 IDS_QUICK = ['combo-recursive', 'combo-rec-choice', 'combo-ref', 'combo-default-shared', 'seq-opt', 'seq-ext-mixed',
              'choice-ext', 'combo-oer-enum', 'setof', 'bits-named', 'c12-paths']
 IDS_MORE = ['combo-uper6', 'combo-choice-seq', 'combo-ext-nest', 'combo-bits-default', 'combo-set-choice', 'ia5-from',
-            'combo-str-seq', 'oid', 'tag-app', 'seq-ext-8']
+            'combo-str-seq', 'tag-app', 'seq-ext-8']
 
 
 # ---- write monitor ------------------------------------------------------------------------
